@@ -1,7 +1,8 @@
 (** Model of internal/delivery/parser/parser.go: extractAllHeaders
     (string level, statement by statement), and the field-level function it
     computes on the header block of a serialised message ([hdr_store]).
-    Domain note: strings.TrimSpace is modelled for ASCII white space. *)
+    Domain note: strings.TrimSpace is modelled for ASCII white space.
+    Code as of fix C02-3: only white space around the whole value is dropped. *)
 From Coq Require Import String Ascii List Bool Arith ZArith.
 From Raven Require Import Base.GoStr Base.GoStrMime Spec.Mime.
 Import ListNotations.
@@ -9,6 +10,9 @@ Import ListNotations.
 Definition is_sp_tab (c : ascii) : bool := Ascii.eqb c " "%char || Ascii.eqb c (ascii_of_nat 9).
 Definition nonempty (s : str) : bool := match s with [] => false | _ => true end.
 Definition colon : ascii := ":"%char.
+Definition ws4 : str := [" "%char; ascii_of_nat 9; CR; LF].      (* cutset " \t\r\n" *)
+(** strings.TrimRight(currentHeaderValue.String(), " \t\r\n") when a header is saved *)
+Definition save_value (val : str) : str := trim_right val ws4.
 
 (** the loop of extractAllHeaders over [strings.Split(rawMessage, "\n")];
     state: currentHeaderName, currentHeaderValue, headers (reversed) *)
@@ -18,16 +22,16 @@ Fixpoint eah_loop (lines : list str) (cur val : str) (acc : list header) : list 
   | l0 :: rest =>
       let line := trim_right l0 [CR] in
       match line with
-      | [] => rev (if nonempty cur then (cur, val) :: acc else acc)
+      | [] => rev (if nonempty cur then (cur, save_value val) :: acc else acc)
       | c :: _ =>
           if is_sp_tab c then
             eah_loop rest cur (if nonempty cur then val ++ crlf ++ line else val) acc
           else
-            let acc' := if nonempty cur then (cur, val) :: acc else acc in
+            let acc' := if nonempty cur then (cur, save_value val) :: acc else acc in
             let val' := if nonempty cur then [] else val in   (* Reset only when a header was saved *)
             match index_byte line colon with
             | Some i => eah_loop rest (trim_space (firstn i line))
-                                 (val' ++ trim_space (skipn (S i) line)) acc'
+                                 (val' ++ trim_left_f is_sp_tab (skipn (S i) line)) acc'
             | None => eah_loop rest [] val' acc'
             end
       end
@@ -36,10 +40,11 @@ Fixpoint eah_loop (lines : list str) (cur val : str) (acc : list header) : list 
 Definition extract_all_headers (raw : str) : list header := eah_loop (split_byte raw LF) [] [] [].
 
 (** What the extraction does to one field (name, raw text after the colon,
-    folds written CRLF WSP): the name and the first line are trimmed, the
-    continuation lines are kept as they are. *)
+    folds written CRLF WSP): the name is trimmed, leading blanks of the first
+    line and white space at the very end of the value are dropped, everything
+    in between (folds included) is kept. *)
 Definition hdr_store (h : header) : header :=
   match split (snd h) crlf with
   | [] => (trim_space (fst h), [])
-  | l0 :: ls => (trim_space (fst h), trim_space l0 ++ flat_map (fun l => crlf ++ l) ls)
+  | l0 :: ls => (trim_space (fst h), save_value (trim_left_f is_sp_tab l0 ++ flat_map (fun l => crlf ++ l) ls))
   end.
